@@ -51,7 +51,9 @@ type concReplay struct {
 // runSchedule executes one schedule of a scenario.
 func runSchedule(sc *concScenario, prefix []int) (*vsched.Execution, *concExec) {
 	x := &concExec{data: map[string]any{}}
-	ex := vsched.Run(vsched.Config{Mode: vsched.ModeConc, Prefix: prefix, MaxClockFirings: sc.maxClock, RecordPoints: os.Getenv("VERIF_DEBUG") != ""}, func() { sc.body(x) })
+	// MaxPoints: the longest execution of any harness has about 16 k scheduling points; an execution that needs four
+	// times as many is spinning (reported as a livelock, not explored further, monitors not run over its frames)
+	ex := vsched.Run(vsched.Config{Mode: vsched.ModeConc, Prefix: prefix, MaxClockFirings: sc.maxClock, MaxPoints: 60000, RecordPoints: os.Getenv("VERIF_DEBUG") != ""}, func() { sc.body(x) })
 	early := 0
 	for i := range ex.Points {
 		p := &ex.Points[i]
@@ -60,7 +62,7 @@ func runSchedule(sc *concScenario, prefix []int) (*vsched.Execution, *concExec) 
 		}
 	}
 	x.data["earlyClock"] = early
-	if sc.post != nil && ex.Outcome != vsched.Diverged {
+	if sc.post != nil && ex.Outcome != vsched.Diverged && ex.Outcome != vsched.StepLimit {
 		sc.post(x)
 	}
 	return ex, x
